@@ -889,7 +889,7 @@ def oracle_embed(ctx, volume=1):
 
 
 PARTIAL = [
-    {"theorem": "object-level tensor product (order / grouping independence)", "missing": "proved on the executed path only for states in product form: tensorStateState_product_partial (via ratPerm_eq_calcPerm and calcPerm_sorts: any number of subsystems, any dims, one vector per elemental system — hence any two single-subsystem states); proved in addition: PᵀP = 1 for every calc_permutation_matrix / ratPerm result (calcPerm_orthogonal, ratPerm_orthogonal); and for the executed gate product R = P(A⊗B)Pᵀ the intertwining R·(P·x) = P·((A⊗B)·x) for every x, entangled or not (tensorHs_intertwines); not proved: the fully explicit sorted form for composite operands, the POVM / gate / m-process branches (tensorPovmPovm incl. convertList and newNums, tensorHsWith's P·t·Pᵀ), associativity of tensorObj / tensorFold; those rest on hs_tensor, product_gate_action, calcPerm_sorts and the correspondence over every order and grouping"},
+    {"theorem": "object-level tensor product (order / grouping independence)", "missing": "proved on the executed path only for states in product form: tensorStateState_product_partial (via ratPerm_eq_calcPerm and calcPerm_sorts: any number of subsystems, any dims, one vector per elemental system — hence any two single-subsystem states); proved in addition: PᵀP = 1 for every calc_permutation_matrix / ratPerm result (calcPerm_orthogonal, ratPerm_orthogonal); and for the executed gate product R = P(A⊗B)Pᵀ the intertwining R·(P·x) = P·((A⊗B)·x) for every x, entangled or not (tensorHs_intertwines), in particular R·P(x1⊗x2) = P((A x1)⊗(B x2)) (tensorHs_product_action); not proved: the fully explicit sorted form for composite operands, the POVM / gate / m-process branches (tensorPovmPovm incl. convertList and newNums, tensorHsWith's P·t·Pᵀ), associativity of tensorObj / tensorFold; those rest on hs_tensor, product_gate_action, calcPerm_sorts and the correspondence over every order and grouping"},
     {"theorem": "product_statistics / povm_product_raw_layout", "missing": "stated on the unpermuted Kronecker lists (dotL is a QProps-local inner product), not on the outputs of tensorPovmPovm after the outcome permutation; MProcess⊗MProcess layout is false on the current tree (D7b open: mprocess_product_layout_fails)"},
     {"theorem": "tie to the source", "missing": "leftPerm_matches_source and the two swaps of calcPerm_loop_matches_source are ties; accumOnLeft is a tripwire; _check_cross_system_position, _K and everything in operators.py are not regenerated"},
     {"theorem": "embedding for >= 3 qutrits", "missing": "embedding = V M V^H + coeff (1 - V V^H) is proved for every isometric relabelling (embed_state_physical, embed_povm_physical, embed_kraus_tp, embed_statistics); that the coded index permutation IS such a relabelling is proved for 1 and 2 qutrits (embedEntry_one_eq, embedEntry_two_eq, finite), not for general num_qutrits; the Kraus round trip around it is C02's; the 2*num_qutrits != len(e_syss) guard is not modelled"},
